@@ -350,6 +350,23 @@ def cue_text(rng, wellformed=True):
         text += eol
     return total, text, expected
 
+def cue_edge_texts():
+    """fixed lexical corner cases, always run: every quoting shape of CATALOG / ISRC values, empty and
+    one-character arguments of every command, trailing separators"""
+    out = []
+    dq = chr(34)
+    quotes = [dq, dq * 2, dq * 3, dq + ' ' + dq, dq + '1234567890123' + dq, dq + '1234567890123', '1234567890123' + dq,
+              dq + 'AA6Q72000047' + dq, dq + 'AA6Q72000047', chr(39)]
+    for q in quotes:
+        out.append((588 * 1000, 'CATALOG ' + q + '\nTRACK 01 AUDIO\nINDEX 01 00:00:00\n'))
+        out.append((588 * 1000, 'TRACK 01 AUDIO\nISRC ' + q + '\nINDEX 01 00:00:00\n'))
+        out.append((1001, 'CATALOG ' + q + '\nTRACK 01 AUDIO\nISRC ' + q + '\nINDEX 01 0\n'))
+    for cmd in ['CATALOG', 'TRACK', 'INDEX', 'ISRC', 'FLAGS', 'FILE', '']:
+        for arg in ['', ' ', '  ', ' 1', ' 01', ' 01 ', ' 01  00:00:00', ' :', ' ::', ' 01 :', ' 01 ::', ' 01 0:0:0', ' 01 00:00',
+                    ' 01 00:00:00:00', ' + +', ' +1 +0:+0:+0']:
+            out.append((588 * 1000, 'TRACK 01 AUDIO\n' + cmd + arg + '\nINDEX 01 00:00:00\n' + cmd + arg))
+    return out
+
 # ------------------------------------------------------------------------------------------------
 # image headers
 # ------------------------------------------------------------------------------------------------
